@@ -22,35 +22,66 @@ def all_ids():
 def setup():
     """full build from files on disk: tables, Lean modules of every check, drivers, harnesses.
     A property whose own targets do not build is reported and skipped: its check will say so itself."""
+    from concurrent.futures import ThreadPoolExecutor
     try:
         from extract import extract as ex
         ex.regenerate()
     except Exception as e:
         print("setup: extraction failed: %r" % (e,))
     bad = []
+    specs = {}
     for pid in all_ids():
         try:
-            spec = load(pid)
-            targets = sorted(set(list(spec.lean_modules) + list(spec.extra_modules) + [s.driver for s in spec.suites() if s.driver]))
-            ok, out = core.lake_build(targets)
-            if not ok:
-                bad.append(pid)
-                print("setup: %s: lake build failed:\n%s" % (pid, out[-1500:]))
-                continue
-            seen = set()
-            for s in spec.suites():
-                hname, hsrc, hkw = s.harness
-                key = (hname, tuple(hsrc), json.dumps(hkw, sort_keys=True))
-                if key in seen:
-                    continue
-                seen.add(key)
-                core.build_harness(hname, hsrc, **hkw)
-            if hasattr(spec, "prebuild"):
-                spec.prebuild()
+            specs[pid] = load(pid)
         except Exception as e:
             bad.append(pid)
             print("setup: %s: %r" % (pid, e))
-    print("setup done; not ready: %s" % (bad or "none"))
+
+    def targets_of(spec):
+        return sorted(set(list(spec.lean_modules) + list(spec.extra_modules) + [s.driver for s in spec.suites() if s.driver]))
+
+    # one lake invocation for everything (lake schedules the modules over all cores); if that fails, per property to name the culprit
+    every = sorted({t for sp in specs.values() for t in targets_of(sp)})
+    ok, out = core.lake_build(every)
+    if not ok:
+        for pid, spec in specs.items():
+            ok1, out1 = core.lake_build(targets_of(spec))
+            if not ok1:
+                bad.append(pid)
+                print("setup: %s: lake build failed:\n%s" % (pid, out1[-1500:]))
+
+    # harnesses: independent compiler runs, in parallel
+    jobs, seen = [], set()
+    for pid, spec in specs.items():
+        for s in spec.suites():
+            hname, hsrc, hkw = s.harness
+            key = (hname, tuple(hsrc), json.dumps(hkw, sort_keys=True))
+            if key in seen:
+                continue
+            seen.add(key)
+            jobs.append((pid, hname, hsrc, hkw))
+
+    def build(job):
+        pid, hname, hsrc, hkw = job
+        try:
+            core.build_harness(hname, hsrc, **hkw)
+            return None
+        except Exception as e:
+            return (pid, "%s: %r" % (hname, e))
+
+    with ThreadPoolExecutor(max_workers=max(2, core.NCPU // 2)) as ex:
+        for r in ex.map(build, jobs):
+            if r:
+                bad.append(r[0])
+                print("setup: %s: %s" % r)
+    for pid, spec in specs.items():
+        if hasattr(spec, "prebuild"):
+            try:
+                spec.prebuild()
+            except Exception as e:
+                bad.append(pid)
+                print("setup: %s: prebuild: %r" % (pid, e))
+    print("setup done; not ready: %s" % (sorted(set(bad)) or "none"))
     return 0
 
 
